@@ -1,11 +1,16 @@
 #!/bin/sh
 # Final confirmation of every seeded change by the documented route (apply in /repo, run the check, undo), serially.
 # Nothing else may use /repo or run checks meanwhile.  tools/confirm_all_seeded.sh [pattern]
+# A change already confirmed by this route at the current /repo HEAD is skipped.
 cd "$(dirname "$0")/.." || exit 2
+HEAD=$(git -C /repo rev-parse --short HEAD)
 for d in seeded/${1:-*}/; do
   d=${d%/}
   [ -f "$d/patch.diff" ] || continue
-  tools/run_seeded.py "$d" --in-repo --tests > /tmp/confirm-$(basename "$d").log 2>&1
+  if [ -f "$d/result.json" ] && grep -q '"route": "git -C /repo apply' "$d/result.json" && grep -q "\"repo_head\": \"$HEAD\"" "$d/result.json"; then
+    continue
+  fi
+  tools/run_seeded.py "$d" --in-repo > /tmp/confirm-$(basename "$d").log 2>&1
   git -C /repo checkout -- . 2>/dev/null
   tools/seeded_summary.py "$(basename "$d")" | cut -c1-150
 done
